@@ -1,4 +1,5 @@
 import NxProofs.RmcServer
+import NxProofs.RmcResult
 /-!
 # C11 — an RMC server answers every request exactly once with the right outcome
 
@@ -15,10 +16,16 @@ and an output that fits a u32 length), or raised an RMC error whose code is a u3
 `RMCError(code)` yields for every code of the table), or raised any `Exception`.
 Outside it (stated, not hidden): a `BaseException` that is no `Exception`, or an `RMCError` whose code does
 not fit 32 bits, leaves `handle_request` and ends the loop — `not_answered_examples`.
-Statements only; proofs in `NxProofs/RmcServer.lean`.
+Wrongly typed RESULTS (`NxModel/Nex/RmcResult.lean`): the generated handler validates only the top level of what
+the user's method returned; every other position is checked by the encoder alone. `RmcResult.check slot v` models
+which exception writing the Python value `v` at a position declared `slot` raises (tied by the correspondence on
+every position of every generated result type); `incompat` is the property's own relation "a position declared
+`slot` cannot hold a value of this type" (the harness's oracle, `rmc_results.incompatible`, is its twin, compared
+on every case). Containers, structures and response fields only propagate (nothing in the encoder catches).
+Statements only; proofs in `NxProofs/RmcServer.lean`, `NxProofs/RmcResult.lean`.
 -/
 namespace Nx.C11
-open Nx Nx.Rmc Nx.RmcServer
+open Nx Nx.Rmc Nx.RmcServer Nx.RmcResult
 
 /-- exactly one response, carrying the request's protocol and call id — or none iff the protocol is NORESPONSE -/
 theorem one_response (servers : Registry) (req : Msg) (m : Nat) (w : ReqWF req m) (h : HandleResult)
@@ -76,6 +83,49 @@ theorem dispatch_supported (srv : Server) (mid : Nat) (mt : Method)
       generatedHandle srv mid none (.returns sh enc) = .raised .other) :=
   ⟨fun e u => gen_extract_fails srv mid e u mt h hs, fun e => gen_raises srv mid e mt h hs,
    fun enc => gen_returns_good srv mid enc mt h hs, fun sh enc hsh hr => gen_returns_bad srv mid enc mt sh h hs hsh hr⟩
+
+/-- a result the validation / encoder rejects at one position with exception `e` is answered with exactly the
+    error response carrying the PythonCore code of `e` (TypeError → 0x80040002, everything else it raises →
+    0x80040001): never a success, never part of the output -/
+theorem wrong_result_answered_with_error (servers : Registry) (req : Msg) (m : Nat) (w : ReqWF req m)
+    (hp : regLookup req.protocol servers = some false)
+    (srv : Server) (mid : Nat) (mt : Method) (hf : findMethod mid srv.methods = some mt)
+    (hs : mt.supported = true) (hr : mt.resp ≠ .none)
+    (wh : Where) (s : Slot) (v : Val) (e : PyExc) (obs : Bytes) (he : resultCheck wh s v = some e) :
+    react servers req (generatedHandle srv mid none (.returns .good (encOf (resultCheck wh s v) obs)))
+      = .sends (specEncode (.failure req.protocol req.callId (pyCode e))) :=
+  rejected_result_response w hp srv mid mt hf hs hr wh s v e obs he
+
+/-- every value the property calls wrongly typed for a declared type is rejected by the encoder model, with the
+    class of exception the property states (so, by `wrong_result_answered_with_error`, answered with that code) -/
+theorem incompatible_value_rejected (s : Slot) (v : Val) (c : Exc) (h : incompat s v = some c) :
+    ∃ e, check s v = some e ∧ e.cls = c :=
+  incompat_sound s v c h
+
+/-- a string position holds exactly `None` and text that encodes to at most 65534 UTF-8 bytes; everything else —
+    int, float, bool, bytes, lists, objects — is a TypeError (an encoder that formats instead of concatenating
+    breaks exactly this) -/
+theorem string_position (v : Val) :
+    (check .string v = none ↔ v = .atom .none ∨ ∃ cps, v = .atom (.str cps) ∧ textCheck cps = none) ∧
+    (v ≠ .atom .none → (∀ cps, v ≠ .atom (.str cps)) → check .string v = some .typeError) :=
+  ⟨string_accepts_iff v, string_rejects_non_text v⟩
+
+/-- the top level of a single-value result: `isinstance` first (RuntimeError), then the encoder -/
+theorem top_level_result (t : TopType) (s : Slot) (v : Val) :
+    (isInstance t v = false → resultCheck (.top t) s v = some .runtimeError) ∧
+    (isInstance t v = true → resultCheck (.top t) s v = check s v) :=
+  resultCheck_top t s v
+
+/-- lists and maps: the first rejected element / key / value decides, whatever follows it -/
+theorem containers_propagate_first_failure :
+    (∀ (e : Slot) (k : SeqKind) (pre post : List Atom) (a : Atom) (x : PyExc),
+      (∀ b ∈ pre, check e (.atom b) = none) → check e (.atom a) = some x →
+      check (.list e) (.seq k (pre ++ a :: post)) = some x) ∧
+    (∀ (ks vs : Slot) (pre post : List (Atom × Atom)) (kv : Atom × Atom) (x : PyExc),
+      (∀ p ∈ pre, check ks (.atom p.1) = none ∧ check vs (.atom p.2) = none) →
+      (check ks (.atom kv.1) = some x ∨ (check ks (.atom kv.1) = none ∧ check vs (.atom kv.2) = some x)) →
+      check (.map ks vs) (.dict (pre ++ kv :: post)) = some x) :=
+  ⟨list_first_failure, map_first_failure⟩
 
 /-- with distinct method ids (generated obligation `method_ids_distinct`) every table entry is reachable
     under its own id, and a lookup only ever yields an entry with the requested id -/
@@ -138,6 +188,18 @@ example : react [(10, false), (14, true)]
     { mode := 0, protocol := 14, method := some 1, callId := 9, error := -1, body := [] } (.returned []) = .silent := by decide
 example : generatedHandle { protocol := 10, noresponse := false, methods := [{ id := 1, supported := true, resp := .single false }] }
     1 (some .other) .stub = .raised .other := by decide
+example : incompat .string (.atom (.int 12345)) = some .typeError := by decide
+example : incompat (.list .string) (.atom .opaque) = some .typeError := by decide
+example : incompat .u32 (.atom (.str [49])) = some .other := by decide
+example : resultCheck (.inner false) .string (.atom (.bytes [110, 111, 100, 101] false)) = some .typeError := by decide
+example : check (.list .string) (.seq .list [.str [110], .int 2, .str [110]]) = some .typeError := by decide
+example : check (.map .u16 .string) (.dict [(.int 1, .str [97]), (.int 70000, .opaque)]) = some .structError := by decide
+example : resultCheck (.top .list) (.list .string) (.seq .tuple [.str [97]]) = some .runtimeError := by decide
+example : check .u32 (.atom (.bool true)) = none ∧ check .stationurl (.atom (.int 5)) = none ∧ check .bool (.atom .opaque) = none := by decide
+example : react [(10, false)] { mode := 0, protocol := 10, method := some 1, callId := 9, error := -1, body := [] }
+    (generatedHandle { protocol := 10, noresponse := false, methods := [{ id := 1, supported := true, resp := .multi }] } 1 none
+      (.returns .good (encOf (resultCheck (.inner false) .string (.atom (.int 12345))) [1, 0, 1, 0])))
+    = .sends [10, 0, 0, 0, 10, 0, 2, 0, 4, 0x80, 9, 0, 0, 0] := by decide
 example : serve [(10, false)]
     [({ mode := 0, protocol := 10, method := some 2, callId := 1, error := -1, body := [] }, .raised .typeError),
      ({ mode := 0, protocol := 11, method := some 2, callId := 2, error := -1, body := [] }, .returned [])]
